@@ -41,6 +41,8 @@ type flowParams struct {
 	Restart  bool     `json:"restart"` // start the pipeline again after the stop completed
 	Retries  int      `json:"max_retries"`
 	Procs    []procParam `json:"procs"`
+	PointOnly    []string `json:"point_only"` // preemptive part: sweep only points of these files
+	LateOpen     []string `json:"late_open"` // destinations whose Open gate sorts last (stays pending by default)
 	GateDestOpen bool    `json:"gate_dest_open"` // destination Open calls are pending events with answers {ok, err}
 	NoMatch      []int   `json:"no_match"`       // records that do not match the processors' condition (Cond: "match")
 	GateDLQOpen  bool    `json:"gate_dlq_open"`  // the DLQ connector's Open is a pending event (an unresponsive DLQ during start-up)
@@ -80,6 +82,12 @@ func (p flowParams) name() string {
 	}
 	if p.GateDestOpen {
 		n += "/destopen"
+	}
+	if len(p.PointOnly) > 0 {
+		n += "/points=" + strings.Join(p.PointOnly, ",")
+	}
+	if len(p.LateOpen) > 0 {
+		n += "/lateopen=" + strings.Join(p.LateOpen, ",")
 	}
 	if p.GateDLQOpen {
 		n += "/dlqopen"
@@ -149,6 +157,11 @@ func (p flowParams) topology() stack.Topology {
 	}
 	for d := 0; d < p.Dests; d++ {
 		ds := fakes.DestScript{Name: fmt.Sprintf("d%d", d), AckMenu: p.AckMenu, GateOpen: p.GateDestOpen, Faults: p.GateDestOpen}
+		for _, l := range p.LateOpen {
+			if l == ds.Name {
+				ds.LateOpen = true
+			}
+		}
 		if p.Reject != nil {
 			ds.Reject = map[string]bool{}
 			for _, k := range p.Reject[ds.Name] {
@@ -625,6 +638,16 @@ func TestVerifFlowPreempt(t *testing.T) {
 		scn.Check = func(x *verifkit.Exec) []verifkit.Violation { return filterFor(prop, inner(x)) }
 		pb := sc.bound()
 		e := &verifkit.Explorer{T: t, Rep: rep, Scn: scn, MaxBound: 0, PreemptBound: &pb, MaxPointOccurrence: 2, Deadline: deadline}
+		if only := sc.p.PointOnly; len(only) > 0 {
+			e.PointFilter = func(occ string) bool {
+				for _, f := range only {
+					if strings.HasPrefix(occ, f+":") {
+						return true
+					}
+				}
+				return false
+			}
+		}
 		e.Explore()
 	}
 }
